@@ -100,6 +100,25 @@ def cases(tier: str, rng: random.Random) -> List[Case]:
                     vobj, avobj = obj_opts(rng)
                     v = ("ClassV", (rk,), N(cid), schema, vobj, avobj, strict, None)
                     out.append(std_case(v, x, rng.choice(["sync", "async"]), tag="a:class"))
+    # (a'') the undeclared key may be any hashable value - None, 0, False, '', () included - and come first or last;
+    #       all declared keys present and valid, or one missing
+    odd_keys = [G.NONE, G.I(0), G.FALSE, G.S(""), ("VTuple", []), G.I(-1), G.TRUE, G.B(b""), G.F1, ("VTuple", [G.NONE])]
+    for ok_ in odd_keys:
+        for strict in (True, False):
+            for first in (True, False):
+                for drop in (False, True):
+                    for m in ("sync", "async"):
+                        kvs = [] if drop else [P(G.S("a"), G.I(4))]
+                        kvs = ([P(ok_, G.I(0))] + kvs) if first else (kvs + [P(ok_, G.I(0))])
+                        x = ("VDict", kvs)
+                        ks = [P(G.S("a"), INT)]
+                        out.append(std_case(("RecordV", ks, N(0), None, None, strict), x, m, tag="a:odd-extra-key"))
+                        out.append(std_case(("DictAnyV", ks, None, None, strict), x, m, tag="a:odd-extra-key"))
+                        for cid, (rk, flds) in G.CLASS_SCHEMAS.items():
+                            kv2 = [P(G.S(n), G.I(4)) for n, _ in flds][(1 if drop else 0):]
+                            kv2 = ([P(ok_, G.I(0))] + kv2) if first else (kv2 + [P(ok_, G.I(0))])
+                            schema = [P(G.S(n), P(INT, r)) for n, r in flds]
+                            out.append(std_case(("ClassV", (rk,), N(cid), schema, None, None, strict, None), ("VDict", kv2), m, tag="a:odd-extra-key"))
     # (b) non-dict inputs, dict subclasses, target-class instances, other-class instances
     insts = [("VObj", N(G.C_DATA), [P(G.S("a"), G.I(4)), P(G.S("b"), G.I(5))]),
              ("VObj", N(G.C_DATA), [P(G.S("a"), G.S("no")), P(G.S("b"), G.I(5))]),
